@@ -194,40 +194,44 @@ func (r *Resolver) getIDValue(g *Scope, extra *parser.ConstValueExtra) (v string
 // ResolveConst returns the initialization code for a constant or a default value.
 // The type t must be a parser.Type associated with g.
 func (r *Resolver) ResolveConst(g *Scope, name string, t *parser.Type, v *parser.ConstValue) (Code, error) {
-	str, err := r.resolveConst(g, name, t, v)
+	str, err := r.resolveConst(g, g, name, t, v)
 	return Code(str), err
 }
 
-func (r *Resolver) resolveConst(g *Scope, name string, t *parser.Type, v *parser.ConstValue) (string, error) {
+// resolveConst renders the value v, which was written in the IDL of vg, for the
+// type t, which was written in the IDL of g. The two differ for the elements of a
+// container or the fields of a struct-like whose type is defined in another IDL:
+// names of types are looked up through g, identifiers in the value through vg.
+func (r *Resolver) resolveConst(g, vg *Scope, name string, t *parser.Type, v *parser.ConstValue) (string, error) {
 	switch t.Category {
 	case parser.Category_Bool:
-		return r.onBool(g, name, t, v)
+		return r.onBool(g, vg, name, t, v)
 
 	case parser.Category_Byte, parser.Category_I16, parser.Category_I32, parser.Category_I64:
-		return r.onInt(g, name, t, v)
+		return r.onInt(g, vg, name, t, v)
 
 	case parser.Category_Double:
-		return r.onDouble(g, name, t, v)
+		return r.onDouble(g, vg, name, t, v)
 
 	case parser.Category_String, parser.Category_Binary:
-		return r.onStrBin(g, name, t, v)
+		return r.onStrBin(g, vg, name, t, v)
 
 	case parser.Category_Enum:
-		return r.onEnum(g, name, t, v)
+		return r.onEnum(g, vg, name, t, v)
 
 	case parser.Category_Set, parser.Category_List:
-		return r.onSetOrList(g, name, t, v)
+		return r.onSetOrList(g, vg, name, t, v)
 
 	case parser.Category_Map:
-		return r.onMap(g, name, t, v)
+		return r.onMap(g, vg, name, t, v)
 
 	case parser.Category_Struct, parser.Category_Union, parser.Category_Exception:
-		return r.onStructLike(g, name, t, v)
+		return r.onStructLike(g, vg, name, t, v)
 	}
 	return "", fmt.Errorf("type error: '%s' was declared as type %s but got value[%v] of category[%s]", name, t, v, t.Category)
 }
 
-func (r *Resolver) onBool(g *Scope, name string, t *parser.Type, v *parser.ConstValue) (string, error) {
+func (r *Resolver) onBool(g, vg *Scope, name string, t *parser.Type, v *parser.ConstValue) (string, error) {
 	switch v.Type {
 	case parser.ConstType_ConstInt:
 		val := v.TypedValue.GetInt()
@@ -241,7 +245,7 @@ func (r *Resolver) onBool(g *Scope, name string, t *parser.Type, v *parser.Const
 			return s, nil
 		}
 
-		if val, ok := r.getIDValue(g, v.Extra); ok {
+		if val, ok := r.getIDValue(vg, v.Extra); ok {
 			return val, nil
 		}
 		return "", fmt.Errorf("undefined value: %q", s)
@@ -249,7 +253,7 @@ func (r *Resolver) onBool(g *Scope, name string, t *parser.Type, v *parser.Const
 	return "", errTypeMissMatch(name, t, v)
 }
 
-func (r *Resolver) onInt(g *Scope, name string, t *parser.Type, v *parser.ConstValue) (string, error) {
+func (r *Resolver) onInt(g, vg *Scope, name string, t *parser.Type, v *parser.ConstValue) (string, error) {
 	switch v.Type {
 	case parser.ConstType_ConstInt:
 		val := v.TypedValue.GetInt()
@@ -262,7 +266,7 @@ func (r *Resolver) onInt(g *Scope, name string, t *parser.Type, v *parser.ConstV
 		if s == "false" {
 			return "0", nil
 		}
-		if val, ok := r.getIDValue(g, v.Extra); ok {
+		if val, ok := r.getIDValue(vg, v.Extra); ok {
 			goType, _ := r.getTypeName(g, t)
 			val = fmt.Sprintf("%s(%s)", goType, val)
 			return val, nil
@@ -272,7 +276,7 @@ func (r *Resolver) onInt(g *Scope, name string, t *parser.Type, v *parser.ConstV
 	return "", errTypeMissMatch(name, t, v)
 }
 
-func (r *Resolver) onDouble(g *Scope, name string, t *parser.Type, v *parser.ConstValue) (string, error) {
+func (r *Resolver) onDouble(g, vg *Scope, name string, t *parser.Type, v *parser.ConstValue) (string, error) {
 	switch v.Type {
 	case parser.ConstType_ConstInt:
 		val := v.TypedValue.GetInt()
@@ -288,7 +292,7 @@ func (r *Resolver) onDouble(g *Scope, name string, t *parser.Type, v *parser.Con
 		if s == "false" {
 			return "0.0", nil
 		}
-		if val, ok := r.getIDValue(g, v.Extra); ok {
+		if val, ok := r.getIDValue(vg, v.Extra); ok {
 			return val, nil
 		}
 		return "", fmt.Errorf("undefined value: %q", s)
@@ -296,7 +300,7 @@ func (r *Resolver) onDouble(g *Scope, name string, t *parser.Type, v *parser.Con
 	return "", errTypeMissMatch(name, t, v)
 }
 
-func (r *Resolver) onStrBin(g *Scope, name string, t *parser.Type, v *parser.ConstValue) (res string, err error) {
+func (r *Resolver) onStrBin(g, vg *Scope, name string, t *parser.Type, v *parser.ConstValue) (res string, err error) {
 	defer func() {
 		if err == nil && t.Category == parser.Category_Binary {
 			res = "[]byte(" + res + ")"
@@ -311,7 +315,7 @@ func (r *Resolver) onStrBin(g *Scope, name string, t *parser.Type, v *parser.Con
 			break
 		}
 
-		if val, ok := r.getIDValue(g, v.Extra); ok {
+		if val, ok := r.getIDValue(vg, v.Extra); ok {
 			return val, nil
 		}
 		return "", fmt.Errorf("undefined value: %q", s)
@@ -335,12 +339,12 @@ func escapeDoubleQuotes(s string) string {
 	return sb.String()
 }
 
-func (r *Resolver) onEnum(g *Scope, name string, t *parser.Type, v *parser.ConstValue) (string, error) {
+func (r *Resolver) onEnum(g, vg *Scope, name string, t *parser.Type, v *parser.ConstValue) (string, error) {
 	switch v.Type {
 	case parser.ConstType_ConstInt:
 		return fmt.Sprintf("%d", v.TypedValue.GetInt()), nil
 	case parser.ConstType_ConstIdentifier:
-		val, ok := r.getIDValue(g, v.Extra)
+		val, ok := r.getIDValue(vg, v.Extra)
 		if ok {
 			return val, nil
 		}
@@ -348,7 +352,7 @@ func (r *Resolver) onEnum(g *Scope, name string, t *parser.Type, v *parser.Const
 	return "", fmt.Errorf("expect const value for %q is a int or enum, got %+v", name, v)
 }
 
-func (r *Resolver) onSetOrList(g *Scope, name string, t *parser.Type, v *parser.ConstValue) (string, error) {
+func (r *Resolver) onSetOrList(g, vg *Scope, name string, t *parser.Type, v *parser.ConstValue) (string, error) {
 	goType, err := r.getTypeName(g, t)
 	if err != nil {
 		return "", err
@@ -356,9 +360,14 @@ func (r *Resolver) onSetOrList(g *Scope, name string, t *parser.Type, v *parser.
 	var ss []string
 	switch v.Type {
 	case parser.ConstType_ConstList:
+		// the container may be written through typedefs, possibly of another IDL
+		eg, et, err := r.derefType(g, t)
+		if err != nil {
+			return "", err
+		}
 		elemName := "element of " + name
 		for _, elem := range v.TypedValue.GetList() {
-			str, err := r.resolveConst(g, elemName, t.ValueType, elem)
+			str, err := r.resolveConst(eg, vg, elemName, et.ValueType, elem)
 			if err != nil {
 				return "", err
 			}
@@ -370,7 +379,7 @@ func (r *Resolver) onSetOrList(g *Scope, name string, t *parser.Type, v *parser.
 		return fmt.Sprintf("%s{\n%s\n}", goType, strings.Join(ss, "\n")), nil
 
 	case parser.ConstType_ConstIdentifier:
-		val, ok := r.getIDValue(g, v.Extra)
+		val, ok := r.getIDValue(vg, v.Extra)
 		if ok && val != "true" && val != "false" {
 			return val, nil
 		}
@@ -380,7 +389,7 @@ func (r *Resolver) onSetOrList(g *Scope, name string, t *parser.Type, v *parser.
 	return goType + "{}", nil
 }
 
-func (r *Resolver) onMap(g *Scope, name string, t *parser.Type, v *parser.ConstValue) (string, error) {
+func (r *Resolver) onMap(g, vg *Scope, name string, t *parser.Type, v *parser.ConstValue) (string, error) {
 	goType, err := r.getTypeName(g, t)
 	if err != nil {
 		return "", err
@@ -388,14 +397,19 @@ func (r *Resolver) onMap(g *Scope, name string, t *parser.Type, v *parser.ConstV
 	var kvs []string
 	switch v.Type {
 	case parser.ConstType_ConstMap:
+		// the container may be written through typedefs, possibly of another IDL
+		eg, et, err := r.derefType(g, t)
+		if err != nil {
+			return "", err
+		}
 		for _, mcv := range v.TypedValue.Map {
 			keyName := "key of " + name
-			key, err := r.resolveConst(g, keyName, r.bin2str(t.KeyType), mcv.Key)
+			key, err := r.resolveConst(eg, vg, keyName, r.bin2str(et.KeyType), mcv.Key)
 			if err != nil {
 				return "", err
 			}
 			valName := "value of " + name
-			val, err := r.resolveConst(g, valName, t.ValueType, mcv.Value)
+			val, err := r.resolveConst(eg, vg, valName, et.ValueType, mcv.Value)
 			if err != nil {
 				return "", err
 			}
@@ -407,7 +421,7 @@ func (r *Resolver) onMap(g *Scope, name string, t *parser.Type, v *parser.ConstV
 		return fmt.Sprintf("%s{\n%s\n}", goType, strings.Join(kvs, "\n")), nil
 
 	case parser.ConstType_ConstIdentifier:
-		val, ok := r.getIDValue(g, v.Extra)
+		val, ok := r.getIDValue(vg, v.Extra)
 		if ok && val != "true" && val != "false" {
 			return val, nil
 		}
@@ -416,13 +430,13 @@ func (r *Resolver) onMap(g *Scope, name string, t *parser.Type, v *parser.ConstV
 	return goType + "{}", nil
 }
 
-func (r *Resolver) onStructLike(g *Scope, name string, t *parser.Type, v *parser.ConstValue) (string, error) {
+func (r *Resolver) onStructLike(g, vg *Scope, name string, t *parser.Type, v *parser.ConstValue) (string, error) {
 	goType, err := r.getTypeName(g, t)
 	if err != nil {
 		return "", err
 	}
 	if v.Type == parser.ConstType_ConstIdentifier {
-		val, ok := r.getIDValue(g, v.Extra)
+		val, ok := r.getIDValue(vg, v.Extra)
 		if ok && val != "true" && val != "false" {
 			return val, nil
 		}
@@ -460,7 +474,7 @@ func (r *Resolver) onStructLike(g *Scope, name string, t *parser.Type, v *parser
 		}
 
 		key := file.StructLike(st.Name).Field(f.Name).GoName().String()
-		val, err := r.resolveConst(file, st.Name+"."+f.Name, f.Type, mcv.Value)
+		val, err := r.resolveConst(file, vg, st.Name+"."+f.Name, f.Type, mcv.Value)
 		if err != nil {
 			return "", err
 		}
@@ -480,6 +494,23 @@ func (r *Resolver) onStructLike(g *Scope, name string, t *parser.Type, v *parser
 		return "&" + goType + "{}", nil
 	}
 	return fmt.Sprintf("&%s{\n%s\n}", goType, strings.Join(kvs, "\n")), nil
+}
+
+// derefType returns the type that t stands for with typedefs dereferenced and the
+// scope of the IDL it is written in.
+func (r *Resolver) derefType(g *Scope, t *parser.Type) (*Scope, *parser.Type, error) {
+	ast, x, err := semantic.Deref(g.ast, t)
+	if err != nil {
+		return nil, nil, err
+	}
+	if ast == g.ast {
+		return g, x, nil
+	}
+	f := r.util.scopeCache[ast]
+	if f == nil {
+		return nil, nil, fmt.Errorf("%q not build", ast.Filename)
+	}
+	return f, x, nil
 }
 
 func (r *Resolver) getStructLike(g *Scope, t *parser.Type) (f *Scope, s *parser.StructLike, err error) {
